@@ -194,6 +194,7 @@ func (t *timestampOracle) SyncTimestamp(leadership *election.Leadership) error {
 	}
 
 	next := time.Now()
+	next = verifNow(t.client, next)
 	failpoint.Inject("fallBackSync", func() {
 		next = next.Add(time.Hour)
 	})
@@ -299,6 +300,7 @@ func (t *timestampOracle) UpdateTimestamp(leadership *election.Leadership) error
 	tsoGap.WithLabelValues(t.dcLocation).Set(float64(time.Since(prevPhysical).Milliseconds()))
 
 	now := time.Now()
+	now = verifNow(t.client, now)
 	failpoint.Inject("fallBackUpdate", func() {
 		now = now.Add(time.Hour)
 	})
